@@ -1,5 +1,5 @@
 (* C10 — exit status 0 means complete, final-named output; any failure leaves none. Pinned statements only: each theorem is closed by `exact` of a lemma proved in theories/. *)
-From RBP Require Import Bytes Model.
+From RBP Require Import Bytes Model CsvP.
 From RBP Require Drive Merkle Utxo Stats OutProto Reader Published Misc.
 
 Theorem C10_failure_no_final :
@@ -7,8 +7,12 @@ Theorem C10_failure_no_final :
 Proof. exact OutProto.failure_no_final. Qed.
 
 Theorem C10_success_complete :
-  forall (cap : nat) (L : N) (ws : list OutProto.wr) (rows : list (nat * bytes)) (trace : list OutProto.osop) (s : OutProto.fs), (0 < cap)%nat -> OutProto.run cap L ws rows = (trace, 0) -> NoDup (OutProto.tmps ws ++ OutProto.finals ws) -> OutProto.fresh_writers ws -> exists ws' : list OutProto.wr, OutProto.tmps ws' = OutProto.tmps ws /\ OutProto.finals ws' = OutProto.finals ws /\ Forall (fun w : OutProto.wr => OutProto.fs_get (OutProto.w_final w) (OutProto.apply_trace s trace) = Some (OutProto.w_logical w) /\ OutProto.fs_get (OutProto.tmp (OutProto.w_bw w)) (OutProto.apply_trace s trace) = None) ws' /\ (forall g : OutProto.name, ~ In g (OutProto.tmps ws ++ OutProto.finals ws) -> OutProto.fs_get g (OutProto.apply_trace s trace) = OutProto.fs_get g s).
+  forall (cap : nat) (L : N) (ws : list OutProto.wr) (rows : list (nat * bytes)) (trace : list OutProto.osop) (s : OutProto.fs), (0 < cap)%nat -> OutProto.run cap L ws rows = (trace, 0) -> NoDup (OutProto.tmps ws ++ OutProto.finals ws) -> OutProto.fresh_writers ws -> exists ws' : list OutProto.wr, OutProto.tmps ws' = OutProto.tmps ws /\ OutProto.finals ws' = OutProto.finals ws /\ Forall (fun w : OutProto.wr => OutProto.fs_get (OutProto.w_final w) (OutProto.apply_trace s trace) = Some (OutProto.w_logical w) /\ OutProto.fs_get (OutProto.tmp (OutProto.w_bw w)) (OutProto.apply_trace s trace) = None) ws' /\ (forall g : OutProto.name, ~ In g (OutProto.tmps ws ++ OutProto.finals ws) -> OutProto.fs_get g (OutProto.apply_trace s trace) = OutProto.fs_get g s) /\ map OutProto.w_logical ws' = fold_left (fun (ls : list bytes) (r : nat * bytes) => OutProto.app_at (fst r) (snd r) ls) rows (map OutProto.w_logical ws).
 Proof. exact OutProto.success_complete. Qed.
+
+Theorem C10_success_content :
+  forall (cap : nat) (L : N) (ws : list OutProto.wr) (rows : list (nat * bytes)) (trace : list OutProto.osop) (s : OutProto.fs), (0 < cap)%nat -> OutProto.run cap L ws rows = (trace, 0) -> NoDup (OutProto.tmps ws ++ OutProto.finals ws) -> OutProto.fresh_writers ws -> (forall r : nat * bytes, In r rows -> (fst r < length ws)%nat) -> forall j : nat, (j < length ws)%nat -> OutProto.fs_get (nth j (OutProto.finals ws) 0) (OutProto.apply_trace s trace) = Some (OutProto.data_for j rows) /\ OutProto.fs_get (nth j (OutProto.tmps ws) 0) (OutProto.apply_trace s trace) = None.
+Proof. exact OutProto.success_content. Qed.
 
 Theorem C10_crash_prefix_safe :
   forall (cap : nat) (L : N) (ws : list OutProto.wr) (rows : list (nat * bytes)) (trace : list OutProto.osop) (code : OutProto.exitcode) (s : OutProto.fs) (n : nat), (0 < cap)%nat -> OutProto.run cap L ws rows = (trace, code) -> NoDup (OutProto.tmps ws ++ OutProto.finals ws) -> OutProto.fresh_writers ws -> exists ws' : list OutProto.wr, OutProto.finals ws' = OutProto.finals ws /\ Forall (fun w : OutProto.wr => let s' := OutProto.apply_trace s (firstn n trace) in OutProto.fs_get (OutProto.w_final w) s' = OutProto.fs_get (OutProto.w_final w) s \/ OutProto.fs_get (OutProto.w_final w) s' = Some (OutProto.w_logical w)) ws'.
@@ -18,7 +22,13 @@ Theorem C10_input_error_aborts_before_completion :
   forall (B E : Type) (get : N -> option (B + E)) (blk : N -> B) (fuel : nat) (s maxh f : N) (e : E) (acc : list (N * B)), (forall h : N, s <= h < f -> get h = Some (inl (blk h))) -> get f = Some (inr e) -> s <= f <= maxh -> (N.to_nat (f - s) < fuel)%nat -> Drive.drive B E get fuel true maxh s acc = (acc ++ map (fun h : N => (h, blk h)) (Drive.heights s (N.to_nat (f - s))), f, Some (f, e)).
 Proof. exact Drive.drive_stops_at_first_error. Qed.
 
+Theorem C10_file_is_its_rows :
+  forall (i : nat) (ws : list (nat * bytes)), OutProto.data_for i ws = concat (rows_of i ws).
+Proof. exact data_for_rows. Qed.
+
 Print Assumptions C10_failure_no_final.
 Print Assumptions C10_success_complete.
+Print Assumptions C10_success_content.
 Print Assumptions C10_crash_prefix_safe.
 Print Assumptions C10_input_error_aborts_before_completion.
+Print Assumptions C10_file_is_its_rows.
